@@ -102,7 +102,7 @@ def run(res, tier, seed, wd, replay=None):
     # ---- B: free-running stress
     runs = 40 if tier == "quick" else 600
     trB = os.path.join(wd, "trace-stress.ndjson")
-    s, _ = cvh(["queue-stress", "--seed", seed, "--runs", runs, "--out", trB], timeout=3000)
+    s, _ = cvh(["queue-stress", "--seed", seed, "--runs", runs, "--stall-ms", 1300 if tier == "quick" else 3200, "--out", trB], timeout=6000)
     log("[B] %d free-running stress runs, %d emits, %d events" % (s["runs"], s["emits"], s["events"]))
     res.sample({"kind": "stress scenario", "cfg": s["sample"]})
     traces.append(trB)
